@@ -36,9 +36,9 @@ ASSUMPTIONS = [
     "a HeterogeneousLinearModel applied at another resolution uses the nearest-neighbour (cv2.INTER_NEAREST) resampling of its original label map",
 ]
 FLOORS = {
-    "quick": {"clip": 300, "linear": 300, "combined_composition": 100, "combined_routing": 300, "heterogeneous_linear": 80, "heterogeneous_resolution_history": 100, "combined_routing_grouped": 100, "threshold": 150, "kernel_reproduces_values": 60,
+    "quick": {"clip": 300, "linear": 300, "combined_composition": 100, "combined_routing": 300, "heterogeneous_linear": 80, "heterogeneous_resolution_history": 100, "combined_routing_grouped": 100, "threshold": 150, "kernel_reproduces_values": 60, "kernel_values_updated": 100, "kernel_advanced_updated": 15,
               "kernel_numba_equals_plain_sum": 150, "polynomial_span": 5},
-    "thorough": {"clip": 3000, "linear": 3000, "combined_composition": 1000, "combined_routing": 3000, "heterogeneous_linear": 800, "heterogeneous_resolution_history": 1000, "combined_routing_grouped": 1000, "threshold": 1500, "kernel_reproduces_values": 600,
+    "thorough": {"clip": 3000, "linear": 3000, "combined_composition": 1000, "combined_routing": 3000, "heterogeneous_linear": 800, "heterogeneous_resolution_history": 1000, "combined_routing_grouped": 1000, "threshold": 1500, "kernel_reproduces_values": 600, "kernel_values_updated": 1000, "kernel_advanced_updated": 150,
                  "kernel_numba_equals_plain_sum": 1500, "polynomial_span": 5},
 }
 SHARD_TIMEOUT = {"quick": 1500, "thorough": 7200}
@@ -79,8 +79,10 @@ def run_shard(spec, R):
             hi = None if rng.random() < 0.25 else float(lo + rng.uniform(0.0, 1.2))
             m = darsia.ClipModel(**({"min value": lo} if hi is None else {"min value": lo, "max value": hi}))
             case = {"model": "ClipModel", "signal": name, "min": lo, "max": hi}
+            clip_before = arr_of(sig).copy()
             ok, out = R.guarded("clip", lambda: m(sig))
             if ok:
+                R.check(np.array_equal(arr_of(sig), clip_before), "signal_untouched", case, group="ClipModel")
                 a, o = arr_of(sig), arr_of(out)
                 good = type(out) is type(sig) and o.shape == a.shape and bool(np.all(o >= lo)) and (hi is None or bool(np.all(o <= hi)))
                 inside = (a >= lo) & ((a <= hi) if hi is not None else True)
@@ -107,12 +109,17 @@ def run_shard(spec, R):
             if name == "image":
                 continue
             s, o = float(rng.uniform(-2, 2)), float(rng.uniform(-1, 1))
+            if (n + len(name)) % 3 == 0:
+                s = 1.0  # unit scaling (the default) together with a non-zero offset
             for label, m, fs, fo in (("ScalingModel", darsia.ScalingModel(scaling=s), s, 0.0), ("LinearModel", darsia.LinearModel(scaling=s, offset=o), s, o)):
                 case = {"model": label, "signal": name, "scaling": s, "offset": o}
                 y = rng.uniform(-1, 2, size=sig.shape)
                 a = float(rng.uniform(-1, 2))
+                sig0, y0 = sig.copy(), y.copy()
                 ok, vals = R.guarded("linear", lambda: (m(sig), m(y), m(a * sig + (1 - a) * y)))
                 if ok:
+                    R.check(np.array_equal(sig, sig0) and np.array_equal(y, y0), "signal_untouched", case, group=label)
+                    sig, y = sig0, y0  # later clauses are judged on the signal as generated
                     sc = float(np.max(np.abs(sig)) + np.max(np.abs(y)) + 1) * (abs(fs) + 1)
                     good = np.allclose(vals[0], fs * sig + fo, rtol=0, atol=1e-12 * sc)
                     good &= np.allclose(vals[2], a * vals[0] + (1 - a) * vals[1], rtol=0, atol=1e-12 * sc * (abs(a) + 1))
@@ -316,6 +323,47 @@ def run_shard(spec, R):
             got = np.asarray(ki(np.asarray(ki.supports)), float)
             R.check(got.shape == exp.shape and bool(np.all(np.abs(got - exp) <= 1e-3 * max(1.0, float(np.max(np.abs(exp)))))), "kernel_reproduces_values",
                     lambda: {**case, "got": got.tolist(), "expected": exp.tolist()}, group=kind)
+            # ... and as the caller sees it: the prescribed values at the supports, in the caller's order
+            tolv = 1e-3 * max(1.0, float(np.max(np.abs(vals))))
+            R.check(np.shape(at) == (ns,) and bool(np.all(np.abs(np.asarray(at, float) - vals) <= tolv)), "kernel_reproduces_values",
+                    lambda: {**case, "what": "caller's order", "got": np.asarray(at, float).tolist()}, key="C14:kernel_values_reordered_once", group=kind)
+            # new values prescribed on the same object (same supports, caller's order), through both entry points
+            for how in ("update", "update_model_parameters"):
+                newv = rng.uniform(0, 1, size=ns)
+                if how == "update":
+                    ok, _ = R.guarded("kernel_reproduces_values", lambda: ki.update(values=newv.copy()))
+                else:
+                    ok, _ = R.guarded("kernel_reproduces_values", lambda: ki.update_model_parameters(newv.copy(), ["values"]))
+                if ok:
+                    ok, at2 = R.guarded("kernel_reproduces_values", lambda: ki(sup.copy()))
+                if ok:
+                    R.check(np.shape(at2) == (ns,) and bool(np.all(np.abs(np.asarray(at2, float) - newv) <= 1e-3)), "kernel_reproduces_values",
+                            lambda: {**case, "after": f"{how}(values)", "prescribed": newv.tolist(), "got": np.asarray(at2, float).tolist()},
+                            key="C14:kernel_values_reordered_once", group=f"values_update/{kind}")
+                    R.count("kernel_values_updated")
+        # fixed + variable supports (AdvancedKernelInterpolation): all prescribed values are reproduced, also after the
+        # variable values alone are replaced
+        if ns >= 2 and kc % 2 == 1:
+            nfix = int(rng.integers(1, ns))
+            ok, aki = R.guarded("kernel_reproduces_values", lambda: darsia.AdvancedKernelInterpolation(kern))
+            if ok:
+                ok, _ = R.guarded("kernel_reproduces_values", lambda: aki.update_advanced(fixed_supports=sup[:nfix].copy(), fixed_values=vals[:nfix].copy(),
+                                                                                         variable_supports=sup[nfix:].copy(), variable_values=vals[nfix:].copy()))
+            if ok:
+                ok, ata = R.guarded("kernel_reproduces_values", lambda: aki(sup.copy()))
+            if ok:
+                R.check(np.shape(ata) == (ns,) and bool(np.all(np.abs(np.asarray(ata, float) - vals) <= 1e-3)), "kernel_reproduces_values",
+                        lambda: {**case, "class": "AdvancedKernelInterpolation", "fixed": nfix, "got": np.asarray(ata, float).tolist()}, group=f"advanced/{kind}")
+                newvar = rng.uniform(0, 1, size=ns - nfix)
+                ok, _ = R.guarded("kernel_reproduces_values", lambda: aki.update_variable_model_parameters(newvar.copy()))
+                if ok:
+                    ok, atb = R.guarded("kernel_reproduces_values", lambda: aki(sup.copy()))
+                if ok:
+                    expb = np.concatenate([vals[:nfix], newvar])
+                    R.check(np.shape(atb) == (ns,) and bool(np.all(np.abs(np.asarray(atb, float) - expb) <= 1e-3)), "kernel_reproduces_values",
+                            lambda: {**case, "class": "AdvancedKernelInterpolation", "after": "update_variable_model_parameters", "fixed": nfix, "prescribed": expb.tolist(),
+                                     "got": np.asarray(atb, float).tolist()}, group=f"advanced_update/{kind}")
+                    R.count("kernel_advanced_updated")
         # numba path == plain kernel sum for 1-, 2- and 3-dimensional signal arrays
         w = np.asarray(ki.interpolation_weights, np.float32)
         S = np.asarray(ki.supports, np.float32)
